@@ -265,15 +265,17 @@ def compare(run, fields, tables=True):
     return diffs
 
 
-def oracle_fails(run, prefixes, require_contract=True):
+def oracle_fails(run, prefixes, require_contract=True, o1_needs_contract=True):
     out = []
     for i, st in enumerate(run.impl["steps"]):
         orc = st.get("orc")
         if not orc:
             continue
-        if require_contract and orc.get("contract") != "1":
-            continue
         for f in orc["fails"]:
+            # reachability (O1) and completeness (O3) are only meaningful under the adoption contract
+            need = require_contract or (o1_needs_contract and (f.startswith("O1") or f.startswith("O3")))
+            if need and orc.get("contract") != "1":
+                continue
             if any(f.startswith(p) for p in prefixes):
                 out.append((i, f))
         if out:
